@@ -340,7 +340,7 @@ impl Report {
                 let _ = std::fs::create_dir_all(format!("{}/replays", VERIF_DIR));
                 let _ = std::fs::write(&path, serde_json::to_string_pretty(&body).unwrap());
                 println!("VIOLATION property={} replay={}", v.property, path);
-                eprintln!("  -> {}", v.what);
+                eprintln!("  -> {}", v.what.chars().take(400).collect::<String>());
             }
         }
         let evaluations = self.evaluations.load(Ordering::Relaxed);
